@@ -33,9 +33,10 @@ let parse_script s =
 let kind_of flags = if flags land 4 <> 0 then 2 else if flags land 1 <> 0 then 0 else 1
 
 (* the environment of the case: handler hid, invoked with [flags] for binding [name],
-   given the trace so far (newest first) *)
+   given the trace so far (newest first, beginning with the TCallB of this invocation) *)
 let env_of scripts maxdepth : env_t = fun tr hid name flags ->
   let hid = iz hid and flags = iz flags in
+  let tr = (match tr with TCallB _ :: rest -> rest | _ -> failwith "env: no TCallB") in
   let depth = List.fold_left (fun d e -> match e with TCallB _ -> d + 1 | TCallE _ -> d - 1 | _ -> d) 0 tr in
   let hid_of n = List.fold_left (fun acc e -> match e with
       | TBind (n', _, _, h, _) when iz n' = n -> Some (iz h) | _ -> acc) None tr in
